@@ -3,6 +3,7 @@ package main
 import (
 	"fmt"
 	"os"
+	"path/filepath"
 	"strings"
 
 	"verifharness/lib"
@@ -62,7 +63,6 @@ func parseScopeAnswer(ans string) ([]scopeOcc, error) {
 func locOfRange(r lib.Range) string {
 	return fmt.Sprintf("%d:%d:%d:%d", r.Start.Line+1, r.Start.Character, r.End.Line+1, r.End.Character)
 }
-
 
 func runC05(res *lib.Result, tier string, seed int64, args []string) error {
 	nProg := 120
@@ -207,7 +207,7 @@ func runC05(res *lib.Result, tier string, seed int64, args []string) error {
 		}
 		sess.Close()
 	}
-	return nil
+	return c05CreatedFileWorld(res)
 }
 
 func firstByte(s string) byte {
@@ -215,4 +215,53 @@ func firstByte(s string) byte {
 		return 0
 	}
 	return s[0]
+}
+
+// fixed world (every tier): a global that a file created AFTER start-up assigns resolves from the files that were there
+// before — in both ways a client announces the file (a Created file event, or opening it)
+func c05CreatedFileWorld(res *lib.Result) error {
+	a := "local z = 1\nprint(gnew, z)\n"
+	b := "gnew = 1\n"
+	for _, how := range []string{"created-event", "didOpen", "created-event-then-didOpen"} {
+		dir := lib.ScratchDir("c05cf")
+		if err := lib.WriteWorkspace(dir, map[string]string{"a.lua": a}); err != nil {
+			return err
+		}
+		sess, err := lib.StartSession(dir, lib.AllChecksOptions())
+		if err != nil {
+			os.RemoveAll(dir)
+			return err
+		}
+		sess.DidOpen("a.lua", a)
+		sess.Sync()
+		if err := os.WriteFile(filepath.Join(dir, "b.lua"), []byte(b), 0o644); err != nil {
+			return err
+		}
+		if how != "didOpen" {
+			sess.Watched(map[string]int{"b.lua": 1})
+			sess.Sync()
+		}
+		if how != "created-event" {
+			sess.DidOpen("b.lua", b)
+			sess.Sync()
+		}
+		locs, err := sess.Definition("a.lua", 1, 7)
+		sess.Close()
+		os.RemoveAll(dir)
+		caseText := fmt.Sprintf("workspace with a.lua =\n%s-- opened; then b.lua =\n%s-- appears on disk (%s); definition at a.lua 1:7 (gnew)", a, b, how)
+		res.Count("created-file-world/"+how, true)
+		res.Dist("created-file-world." + how)
+		if err != nil {
+			res.AddViolation("crash-or-timeout", err.Error(), caseText, false)
+			continue
+		}
+		got := "-"
+		if len(locs) > 0 {
+			got = filepath.Base(locs[0].URI) + "@" + locOfRange(locs[0].Range)
+		}
+		if got != "b.lua@1:0:1:4" {
+			res.AddViolation("impl-vs-spec", fmt.Sprintf("definition answers %s, the global gnew is assigned at b.lua 1:0:1:4 (1-based line)", got), caseText, false)
+		}
+	}
+	return nil
 }
